@@ -60,6 +60,17 @@ CHECKS['C14'] = dict(level='exploration',
     note='Trusted: the invariants are the statement clauses; a byte-identical user write does not start a new epoch (DESIGN.md §4).',
     design='DESIGN.md §2 C14')
 
+CHECKS['C15'] = dict(level='exploration',
+    technique='runtime monitoring: round-trip oracle (load, dump, reload, dump) over an exhaustive option x value-class sweep, spelling/reference equivalence and behavioural equality',
+    text='Every option at every enumerated/boundary/interior value and 24 hostile string values is loaded by the real binary, dumped with --update-config, reloaded and dumped again (idempotence, no warnings, with-doc agreement); 11 spellings and --set per option, option references incl. inverted ones, directive kinds with 1..5 arguments and the whole test-suite configs are compared through the dump and through formatting with the original vs the dumped config.',
+    note='Trusted: the --update-config dump as the observable of loaded values.',
+    design='DESIGN.md §2 C15')
+CHECKS['C16'] = dict(level='exploration',
+    technique='runtime monitoring under AddressSanitizer+UBSan: diagnostic/no-effect oracle over an exhaustive option x bad-value-class sweep, hostile and mutated config files, strace for the nl_max clause',
+    text='For every option every bad-value class (out of range, 32/64-bit overflow, wrong type, dangling or wrong-type reference, unknown name, bad quoting) is inserted into a valid base config: stderr must name file, line and option, and the dump must equal the base dump; 46 hostile files and mutated test configs must not crash, hang or trigger a sanitizer; nl_max against every blank-line count option must exit EX_CONFIG without the source being opened (strace).',
+    note='Trusted: ASan/UBSan on executed paths; the dump as observable of option values.',
+    design='DESIGN.md §2 C16')
+
 ALL = ['C%02d' % i for i in range(1, 21)]
 
 
